@@ -101,6 +101,7 @@ pub fn oracle(tier: &str, seed: u64) -> (u64, Vec<Finding>) {
         for (name, k) in ks.iter() {
             tried += 1;
             let inp = format!("kernel={} var={:e} alpha={:e} length_scale={:e} x={:e} d1={:e} d2={:e}", name, var, al, ls, x, d1, d2);
+            crumb(&inp);
             let (k0, ka, kb) = (k(x, x), k(x, x + d1), k(x, x + d2));
             let (kas, kbs) = (k(x + d1, x), k(x - d1, x));
             let ulp = 8.0 * f64::EPSILON;
@@ -124,6 +125,7 @@ pub fn oracle(tier: &str, seed: u64) -> (u64, Vec<Finding>) {
         for name in ["rbf", "rq"] {
             tried += 1;
             let inp = format!("kernel={} form={} var={:e} alpha={:e} length_scale={:e} xs={} ys={}", name, form, var, al, ls, json_floats(&xs), json_floats(&ys));
+            crumb(&inp);
             let sc = |a: f64, b: f64| if name == "rbf" { RBFKernel::new(var, ls).forward(a, b) } else { RQKernel::new(var, al, ls).forward(a, b) };
             let got = catch(|| if name == "rbf" { rbf_m(&RBFKernel::new(var, ls), form, &xs, &ys) } else { rq_m(&RQKernel::new(var, al, ls), form, &xs, &ys) });
             match got {
